@@ -310,6 +310,8 @@ func (x *Exec) applyContract(ct *Contract, key string, callee *ssa.Function, sig
 	}
 	pre := st.clone()
 	pre.frozen = true
+	// the callee may allocate: references it stores into modified locations or returns may be new objects
+	allocPre, _ := x.bumpAlloc(st, reach)
 	// frame
 	switch {
 	case ct.Pure:
@@ -325,7 +327,6 @@ func (x *Exec) applyContract(ct *Contract, key string, callee *ssa.Function, sig
 			}
 		}
 	}
-	allocPre, _ := x.bumpAlloc(st, reach)
 	var res Val
 	if sig.Results().Len() == 0 {
 		res = Val{Typ: resT}
